@@ -609,6 +609,50 @@ Definition sweep_disk (mode rel : Z) (disk : fs) (fn : fav) : list Z :=
   | _ => [ST_CRASH]
   end.
 
+(* ---------------------------------------------------------------- kill points at SYSTEM-CALL granularity (op 9)
+   The child that saves runs under ptrace(2); the harness records every file-system call of the save as the kernel
+   sees it and kills the child at the entry of the k-th one, for every k. The model prints the same: the call list
+   (kind, names, byte count) and the directory + Load after EVERY prefix of save_syscalls (not only at the crash
+   points placed in the source). *)
+Definition dump_op (o : op) : list Z :=
+  match o with
+  | Create n => [1; n; -1; 0]
+  | Write n bs => [2; n; -1; lenZ bs]
+  | Rename a b => [3; a; b; 0]
+  end.
+
+Definition sweep_calls (rel : Z) (disk : fs) (fn : fav) : list Z :=
+  let ops := save_syscalls rel (lookup FN_FAV disk) fn in
+  lenZ ops :: flat_map dump_op ops ++
+  flat_map (fun k => let s := exec disk (firstn k ops) in dump_disk s ++ dump_load_after s) (seq 0 (S (length ops))).
+
+(* what the kernel can be asked to do to a directory beyond Base/Fs.v: unlink(2). A call list as ptrace shows it. *)
+Inductive call : Type :=
+| COp (o : op)
+| CUnlink (n : Z).                           (* unlink(n) / unlinkat / os.RemoveAll of a file *)
+
+Definition cstep (s : fs) (c : call) : fs :=
+  match c with COp o => step s o | CUnlink n => remove n s end.
+Definition cexec (s : fs) (cs : list call) : fs := fold_left cstep cs s.
+
+(* the calls of FavRaw.Save as the kernel sees them *)
+Definition save_calls (rel : Z) (old : option (list Z)) (f : fav) : list call := map COp (save_syscalls rel old f).
+
+(* the variant whose last step is a "force rename" (unlink the target if it exists, then rename): the same calls with
+   one unlink(.fav) before the rename *)
+Definition force_rename_calls (rel : Z) (old : option (list Z)) (f : fav) : list call :=
+  match cleanup f with
+  | Ok f1 => if writes rel old
+             then match file_chunks f1 with
+                  | Ok cs => (COp (Create FN_TMP) :: map (fun b => COp (Write FN_TMP b)) (map snd cs)) ++
+                             (match old with Some _ => [CUnlink FN_FAV] | None => [] end) ++
+                             [COp (Rename FN_TMP FN_FAV)]
+                  | _ => []
+                  end
+             else []
+  | _ => []
+  end.
+
 (* ---------------------------------------------------------------- several users, several saves in ONE process (op 8)
    The homes of the users share one file system: file n (n < 8) of user u's home has the name 8 * u + n.
    A step is one call of FavRaw.Save on a fresh tree:
@@ -748,7 +792,9 @@ Definition image_of (s : saved) : option (list Z) :=
          new script: the same sweep over any initial home directory (no .fav / .fav of the old script with the mtime
          relation rel, a .fav4, a stale temporary file), observing every file of the directory and Load afterwards
    op 8: 81 :: u :: kind :: k :: e :: idx :: plen :: path; script; 81 :: ...; script; ...: several Saves of several users in
-         one process, some refused after k bytes of the image (run_steps above) *)
+         one process, some refused after k bytes of the image (run_steps above)
+   op 9: [hasfav; rel]; 77 ...; 78 ...; old script; [99]; new script: the call list of the save and the directory + Load
+         after EVERY prefix of it (the child is killed under ptrace at the entry of every file-system call) *)
 Definition run_case (args : list (list Z)) : list Z :=
   match args with
   | [1] :: ops =>
@@ -807,6 +853,22 @@ Definition run_case (args : list (list Z)) : list Z :=
               let dold := dump_fav fo in
               let dn := dump_fav fn in
               [ST_OK; lenZ dold] ++ dold ++ [lenZ dn] ++ dn ++ sweep_disk mode rel disk fn
+          | None => [ST_BADCASE]
+          end
+      | _, _ => [ST_BADCASE]
+      end
+  | [9] :: [hasfav; rel] :: (77 :: p4 :: b4) :: (78 :: ps :: bs) :: ops =>
+      let '(o, n) := split_at_sep ops in
+      match run_script o empty_fav 0, run_script n empty_fav 0 with
+      | Some (fo, _), Some (fn, _) =>
+          let oldimg := if hasfav =? 0 then Some []
+                        else match save 1 None fo with SOk (Some img) _ => Some [(FN_FAV, img)] | _ => None end in
+          match oldimg with
+          | Some d0 =>
+              let disk := d0 ++ opt_file FN_FAV4 p4 b4 ++ opt_file FN_STALE ps bs in
+              let dold := dump_fav fo in
+              let dn := dump_fav fn in
+              [ST_OK; lenZ dold] ++ dold ++ [lenZ dn] ++ dn ++ sweep_calls rel disk fn
           | None => [ST_BADCASE]
           end
       | _, _ => [ST_BADCASE]
